@@ -53,7 +53,14 @@ def run_histories(chk, env, shadows, n_hist, length, maker):
         tag, sh = shadows[h % len(shadows)] if shadows else ("toy", None)
         if sh is None:
             sh = sc.random_toy(chk.rng)
-        rn = sc.Runner(env, sh, chk.rng)
+        try:
+            rn = sc.Runner(env, sh, chk.rng)
+        except Exception as e:  # noqa  — the real classes refuse (or cannot build) a graph the generator knows to be valid
+            chk.impl_failure({"kind": "shadow-build", "family": tag, "nodes": sh.line_nodes()},
+                             f"valid variable definitions (every derived variable a function of keyword-only parameters, a third of them "
+                             f"declaring their last dependency with a default) cannot be built into a graph / state: {type(e).__name__}: {str(e)[:160]}")
+            chk.case(("shadow-build", h, tag), nontrivial=True, tags={"family": tag, "build": "refused"})
+            continue
         try:
             maker(rn, length)
         except Exception as e:  # noqa  — every call into leaspy is wrapped (Runner.call): this is a harness bug
